@@ -159,6 +159,7 @@ def run(ctx):
                 if mo != decisions:
                     ctx.alarm('correspondence', '%s: cache refresh decisions %s differ from the keyed-cache model %s for sequence %s'
                               % (cls, decisions, mo, seq))
+                __import__('harness.props.genstatemachines', fromlist=['x']).compare_decisions(ctx, cls, seq, decisions)   # … and from the REGENERATED step functions
     # ---- RadiallyVaryingBlur: lod-map cache keyed on everything it depends on
     from odak.learn.perception.radially_varying_blur import RadiallyVaryingBlur
     for it in range(ctx.n(3, 15)):
@@ -257,6 +258,7 @@ def run(ctx):
                           {'class': 'speckle_contrast', 'what': 'uniform_zero', 'nan': bool(math.isnan(u))})
 
     __import__('harness.props.genlosses', fromlist=['x']).check_generated_losses(ctx)   # regenerated loss formulas vs /repo
+    __import__('harness.props.genstatemachines', fromlist=['x']).check_generated_state_machines(ctx)   # regenerated state machines vs /repo
 
 def multiplane_eval(rec):
     """multiplane_loss / perceptual_multiplane_loss from a record: returns list of (what, text)"""
